@@ -1,7 +1,7 @@
 CFG = {
     "lean_targets": ["Norad.Props.C14"],
     "audit": "Norad/Audit/C14.lean",
-    "extract": "fontinfo_conv",
+    "extract": ["fontinfo_conv", "robofab_conv"],
     "rule": ("generated format-1 and format-2 UFO trees (metainfo.plist, fontinfo.plist with legacy keys, optional lib.plist / "
              "features.fea, glyphs/contents.plist, no layercontents.plist) loaded with Font::load; every FontInfo field read through "
              "the public struct, features, lib keys, meta.format_version, validate() and a save observed.  Every legacy attribute "
@@ -19,6 +19,7 @@ CFG = {
     "exhaustive_note": "exhaustive: every legacy attribute of both formats individually, every enumeration code in -5..300, the width-name table with variants; numeric classes per attribute are halved in the quick tier; random combinations are not exhaustive",
     "trusted_base": COMMON_TRUST + [
         "tools/extract.py (regex over the two struct literals, the three match tables, FontInfoV1/V2 and the enums); a wrong extraction can only make a table theorem fail or fall back to the pinned table (`extraction: pinned`)",
+        "tools/extract_robofab_conv.py (statement-by-statement parse of upconvert_ufov1_robofab_data; a statement it does not know sends the sequence-dependent sections to the pinned copy): a wrong extraction can only make a source_robofab_* theorem fail or report `extraction: pinned`",
         "the specification tables in lean/Norad/Spec/FontInfoUp.lean are typed from the UFO conversion documents / fontTools.ufoLib from memory (no offline copy of the specification)",
         "modelled, not verified: plist/serde decoding of the legacy files (deny_unknown_fields, typing of each attribute as `wellTyped`); harness field dump harness/src/fi_fields.rs generated once from struct FontInfo",
         "Norad/Model/FINum.lean: f64 bit patterns decoded to exact magnitudes; round / abs / saturating casts as integer arithmetic",
@@ -32,7 +33,7 @@ CFG = {
 }
 
 MANIFEST = {
-    "text": ("The legacy conversion is a table (legacy attribute, format-3 attribute, value conversion) regenerated from the Rust struct "
+    "text": ("The statement sequence of upconvert_ufov1_robofab_data is translated on every run into a (robofab entry, target, conversion) table; it is proved equal to the table the model folds over (source_robofab_table_eq_model, decide), so that the fold of the translated statements is the model's hint conversion for every input (source_robofab_statements_are_applyHints, source_robofab_load_runs_table), and every row converts as the specification's table prescribes - zone lists flattened, everything else copied, entry types, feature-key roles, keys read = keys removed (source_robofab_conversions_are_spec, source_robofab_row_value_is_spec). The legacy conversion is a table (legacy attribute, format-3 attribute, value conversion) regenerated from the Rust struct "
              "literals on every run; theorems (kernel-checked, `decide`) state that the regenerated format-1 and format-2 tables and the three "
              "enumeration tables equal the specification's tables typed in independently, that no two legacy attributes land on one format-3 "
              "attribute, that unknown enumeration values are errors for ALL codes, that weightValue -1 is dropped, that rounding is within 1/2 "
